@@ -43,6 +43,7 @@ pub fn run(ctx: &Ctx) {
     ctx.set_rule("reference packets: header family (128 flag subsets, named opcodes x rcodes x OPT), every typed record with <= 2 deviations (wider domains in the thorough tier) plus envelope deviations (class, cache-flush, TTL, owner name incl. binary labels and maximal lengths), unknown/NULL/empty RDATA, every question type/class/unicast, all section shapes 0..=2 (0..=3 thorough) entries per section with and without OPT; built via constructors, build_bytes_vec, parse, observed and compared field by field. non-trivial = packet has at least one question or record");
     ctx.assume("domain: wire-representable values only (labels 1..=63 bytes, names <= 255, strings <= 255, TXT with at least one string, NSEC windows increasing, SVCB keys unique, LOC version 0, rcode > 15 only together with OPT, non-empty opaque RDATA)");
     let mut space = gen::packet_space(2, thorough, if thorough { 3 } else { 2 });
+    space.extend(gen::many_and_sized_packets());
     let n_base = space.len();
     space.extend(gen::cross_family(if thorough { 2 } else { 1 }, thorough));
     let chunks: Vec<&[RefPacket]> = space.chunks(128).collect();
